@@ -119,8 +119,8 @@ def _sample(case):
 
 def plan(tier: str) -> list[dict]:
     if tier == "quick":
-        return ([{"max_n": 5, "lp": False, "examples": 300, "cost": 2} for _ in range(3)]
-                + [{"max_n": 4, "lp": True, "examples": 60, "cost": 2}, {"max_n": 5, "lp": True, "examples": 30, "cost": 2}])
+        return ([{"max_n": 5, "lp": False, "examples": 800, "cost": 2} for _ in range(3)] + [{"max_n": 6, "lp": False, "examples": 200, "cost": 2}]
+                + [{"max_n": 4, "lp": True, "examples": 150, "cost": 2}, {"max_n": 5, "lp": True, "examples": 80, "cost": 2}])
     return ([{"max_n": 6, "lp": False, "examples": 1500, "cost": 5} for _ in range(8)]
             + [{"max_n": 7, "lp": False, "examples": 150, "cost": 6} for _ in range(2)]
             + [{"max_n": 5, "lp": True, "examples": 200, "cost": 6} for _ in range(6)])
